@@ -37,6 +37,7 @@ next parse resets it - only a *change* of an earlier result is a violation).
 import collections
 import multiprocessing as mp
 import pickle
+import resource
 import sys
 import types
 
@@ -237,7 +238,7 @@ def world():
 class State(object):
     def __init__(self):
         from clikit.args.default_args_parser import DefaultArgsParser
-        w = world()
+        w = self.w = world()
         self.parser = DefaultArgsParser()
         self.fmts, self.cmds, self.fmt_ids = w["fmts"], w["cmds"], w["fmt_ids"]
         self.earlier = []  # (request, Args|None, views|None, raw, raw_snapshot)
@@ -374,7 +375,7 @@ class Spec(object):
         req = _norm(op)
         kind, name, tokens, lenient, rawkind = req
         vs = []
-        w = world()
+        w = st.w
         fmt = st.fmts[name]
 
         # wrapping an argv list must not alter it
@@ -412,13 +413,6 @@ class Spec(object):
                                       None, exp, got))
         exc = None
 
-        # a new instance in this process must agree with the process-fresh table too
-        if not vs:
-            here = fresh_outcome(req)
-            if here != exp:
-                vs.append(report.viol("new-instance-not-fresh", "a new parser instance is influenced by parses done with another instance",
-                                      None, exp, here))
-
         # inputs unchanged by the parse
         if argv is not None and argv != argv_before:
             vs.append(report.viol("argv-altered:parse", "parse altered the argv list that was wrapped", None, argv_before, argv))
@@ -436,6 +430,18 @@ class Spec(object):
                 if canon(st.fmts[n]) != w["canon"][n]:
                     vs.append(report.viol("format-altered:state", "parse altered the internal state of a format (%s; request used %s)" % (n, name), None))
                     break
+
+        # a new instance in this process must agree with the process-fresh table too
+        if not vs:
+            here = fresh_outcome(req)
+            if here != exp:
+                vs.append(report.viol("new-instance-not-fresh", "a new parser instance is influenced by parses done with another instance",
+                                      None, exp, here))
+
+        if any(v["sig"].startswith("format-altered") for v in vs):
+            # the formats are shared by all states of this process: never keep exploring on altered ones
+            global _WORLD
+            _WORLD = None
 
         # results and raw arguments handed out earlier are unchanged
         for i, (ereq, eargs, eviews, eraw, eraw_snap) in enumerate(st.earlier):
@@ -519,6 +525,8 @@ def all_sequences(spec, depth, vio_cap=20):
 
 
 def main():
+    # belt: a changed clikit that grows its state without bound must end as an error, not eat the machine
+    resource.setrlimit(resource.RLIMIT_AS, (6 << 30, 6 << 30))
     rep = report.Report(PID, "model_checking")
     thorough = rep.tier == "thorough"
     # VERIF_SEED rotates one extra request into the alphabet of the closed-graph run (core always covered)
@@ -534,15 +542,7 @@ def main():
     _TABLE.update(table)
     outcomes = collections.Counter("ok" if "ok" in o else o["raised"] for o in table.values())
 
-    # which requests leave the parser in a state different from a new parser's (measured by fingerprint)
     spec = Spec(core + [extra], table)
-    k0 = spec.key(State())
-    leavers = 0
-    for r in core:
-        st = spec.rebuild_light((r,))
-        if spec.key(st) != k0:
-            leavers += 1
-
     aborted = False
     depth = 8 if thorough else 6
     r = explore.explore(spec, depth, split_depth=1, dedup=True)
@@ -568,6 +568,14 @@ def main():
                  complete=(count == sum(n ** L for L in range(1, nd_depth + 1))))
         rep.sample({"run": "all-sequences", "history": [list(core[1]), list(core[0])]})
         rep.sample({"run": "all-sequences", "history": [list(core[(7 * i) % n]) for i in range(1, nd_depth + 1)]})
+    # which requests leave the parser in a state different from a new parser's (measured by fingerprint)
+    leavers = 0
+    k0 = None if aborted else spec.key(State())
+    for r in ([] if aborted else core):
+        st = spec.rebuild_light((r,))
+        if spec.key(st) != k0:
+            leavers += 1
+
     rep.set("evaluations", count + transitions)
     rep.set("transitions", count + transitions)
     rep.set("traces_validated_against_impl", count + transitions)
